@@ -101,7 +101,15 @@ func (e *Engine) intrinsic(fr *Frame, st *State, name string, fn *ssa.Function, 
 		return e.name(tStore(args[0].(T), e.toTerm(args[1], nil), e.toTerm(args[2], nil)), "as")
 	case "GvcFresh":
 		x := args[0].(T)
-		return T{fmt.Sprintf("(> (newid (iref %s)) 0)", x.S), sBool}
+		switch x.Sort {
+		case sRef:
+			return T{fmt.Sprintf("(>= (newid %s) 1)", x.S), sBool}
+		case sSlice:
+			return T{fmt.Sprintf("(>= (newid (sbase %s)) 1)", x.S), sBool}
+		case sIface:
+			return T{fmt.Sprintf("(>= (newid (iref %s)) 1)", x.S), sBool}
+		}
+		e.unsupported("GvcFresh on sort %s", x.Sort)
 	}
 	e.unsupported("intrinsic %s", name)
 	return nil
@@ -120,7 +128,7 @@ func (e *Engine) builtin(fr *Frame, st *State, b *ssa.Builtin, c *ssa.CallCommon
 			return T{app("scap", args[0].(T)), sInt}
 		}
 	case "append":
-		return e.appendModel(fr, st, args[0].(T), args[1], c.Args[0].Type(), c.Args[1].Type(), pos)
+		return e.appendModel(fr, st, args[0].(T), args[1], c.Args[0].Type(), c.Args[1].Type(), pos, varargsLen(c.Args[1]))
 	case "copy":
 		return e.copyModel(fr, st, args[0].(T), args[1].(T), c.Args[0].Type(), c.Args[1].Type())
 	case "delete":
@@ -132,8 +140,8 @@ func (e *Engine) builtin(fr *Frame, st *State, b *ssa.Builtin, c *ssa.CallCommon
 		hh := e.heap(st, hn, arraySort(sRef, arraySort(ks, sBool)))
 		lh := e.heap(st, ln, arraySort(sRef, sInt))
 		had := tSel(tSel(hh, m), k)
-		e.recStore(hn, m)
-		e.recStore(ln, m)
+		e.recStore(st, hn, m)
+		e.recStore(st, ln, m)
 		e.setHeap(st, ln, tStore(lh, m, tIte(had, T{fmt.Sprintf("(- %s 1)", tSel(lh, m).S), sInt}, tSel(lh, m))))
 		e.setHeap(st, hn, tStore(hh, m, tStore(tSel(hh, m), k, tFalse)))
 		return Tuple{}
@@ -183,7 +191,7 @@ func (e *Engine) lenOf(st *State, v Val, t types.Type) T {
 }
 
 // appendModel: append(s, t...) (t may be a string when s is []byte).
-func (e *Engine) appendModel(fr *Frame, st *State, s T, tv Val, sT, tT types.Type, pos token.Pos) Val {
+func (e *Engine) appendModel(fr *Frame, st *State, s T, tv Val, sT, tT types.Type, pos token.Pos, known int) Val {
 	et := sT.Underlying().(*types.Slice).Elem()
 	t := tv.(T)
 	if t.Sort == sStr {
@@ -210,6 +218,18 @@ func (e *Engine) appendModel(fr *Frame, st *State, s T, tv Val, sT, tT types.Typ
 	inner := arraySort(sInt, e.sortOf(et))
 	sb, so := T{app("sbase", s), sRef}, T{app("soff", s), sInt}
 	tb, to := T{app("sbase", t), sRef}, T{app("soff", t), sInt}
+	if known == 1 {
+		// append(s, x): one explicit store, no quantifier for the appended element
+		x := e.name(tSel(tSel(h, tb), to), "x")
+		arr := e.fresh(inner, "arr")
+		e.assume(st, T{fmt.Sprintf("(forall ((i Int)) (! (=> (and (<= 0 i) (< i %s)) (= (select %s i) (select (select %s %s) (+ %s i)))) :pattern ((select %s i))))", n1.S, arr.S, h.S, sb.S, so.S, arr.S), sBool})
+		inpl := tStore(h, sb, tStore(tSel(h, sb), T{fmt.Sprintf("(+ %s %s)", so.S, n1.S), sInt}, x))
+		grown := tStore(h, nb, tStore(arr, n1, x))
+		e.recStore(st, hn, sb)
+		e.recStore(st, hn, nb)
+		e.setHeap(st, hn, tIte(inplace, inpl, grown))
+		return res
+	}
 	// new backing array contents
 	arr := e.fresh(inner, "arr")
 	e.assume(st, T{fmt.Sprintf("(forall ((i Int)) (! (=> (and (<= 0 i) (< i %s)) (= (select %s i) (select (select %s %s) (+ %s i)))) :pattern ((select %s i))))", n1.S, arr.S, h.S, sb.S, so.S, arr.S), sBool})
@@ -219,8 +239,8 @@ func (e *Engine) appendModel(fr *Frame, st *State, s T, tv Val, sT, tT types.Typ
 	e.assume(st, T{fmt.Sprintf("(forall ((i Int)) (! (=> (not (and (<= (+ %s %s) i) (< i (+ %s %s)))) (= (select %s i) (select (select %s %s) i))) :pattern ((select %s i))))", so.S, n1.S, so.S, total.S, arr2.S, h.S, sb.S, arr2.S), sBool})
 	e.assume(st, T{fmt.Sprintf("(forall ((j Int)) (! (=> (and (<= 0 j) (< j %s)) (= (select %s (+ %s %s j)) (select (select %s %s) (+ %s j)))) :pattern ((select %s (+ %s %s j)))))", n2.S, arr2.S, so.S, n1.S, h.S, tb.S, to.S, arr2.S, so.S, n1.S), sBool})
 	nh := tIte(T{fmt.Sprintf("(= %s 0)", n2.S), sBool}, h, tIte(inplace, tStore(h, sb, arr2), tStore(h, nb, arr)))
-	e.recStore(hn, sb)
-	e.recStore(hn, nb)
+	e.recStore(st, hn, sb)
+	e.recStore(st, hn, nb)
 	e.setHeap(st, hn, nh)
 	return res
 }
@@ -269,7 +289,7 @@ func (e *Engine) copyModel(fr *Frame, st *State, d, s T, dT, sT types.Type) Val 
 	arr := e.fresh(inner, "cp")
 	e.assume(st, T{fmt.Sprintf("(forall ((i Int)) (! (= (select %s i) (ite (and (<= (soff %s) i) (< i (+ (soff %s) %s))) (select (select %s (sbase %s)) (+ (soff %s) (- i (soff %s)))) (select (select %s (sbase %s)) i))) :pattern ((select %s i))))",
 		arr.S, d.S, d.S, n.S, h.S, s.S, s.S, d.S, h.S, d.S, arr.S), sBool})
-	e.recStore(hn, T{app("sbase", d), sRef})
+	e.recStore(st, hn, T{app("sbase", d), sRef})
 	e.setHeap(st, hn, tIte(T{fmt.Sprintf("(= %s 0)", n.S), sBool}, h, tStore(h, T{app("sbase", d), sRef}, arr)))
 	return n
 }
